@@ -536,6 +536,12 @@ pub fn run(prop: &'static str, tier: &'static str) -> i32 {
     // every path oracle compares implementation behaviour with a ground-truth prediction
     let pr = rep.get("paths_returned");
     rep.count("traces_validated", pr);
+    if prop == "C02" {
+        // history half: call sequences with replaced problems / re-setup (DESIGN C02)
+        let hr = crate::props_api::explore("C02", tier);
+        rep.count("api_call_sequences", hr.get("evaluations"));
+        rep.merge(hr);
+    }
     finish(&meta, rep, t0)
 }
 
